@@ -14,7 +14,10 @@
                                    polynomial when z_i conj z_i = 1
      noise_polynomial_converse     unit-modulus poles: a vector whose noise polynomial vanishes at every pole is annihilated by FB
      singular_vector_null          FB^H FB v_I = S_I^2 v_I and S_I = 0  =>  FB v_I = 0
-     eigen_resolves                noiseless on-grid exponentials, NSIG = K, svd_spec, S_K = 0: eigen returns S, and each entry whose
+     rank_bounds_singular_values   FB = L * B with K rows in B, any (S, Vh) meeting svd_spec, K < P: S_K = 0 (homogeneous systems with more
+                                   unknowns than equations have a non-trivial solution; orthonormal vectors are independent)
+     singular_values_rank          noiseless unit-modulus data: S_I = 0 for every I >= K — at most K singular values are non-zero
+     eigen_resolves                noiseless on-grid exponentials, NSIG = K, svd_spec: eigen returns S, S_I = 0 for I >= K, and each entry whose
                                    centred bin is a true bin is 1/0 — the MUSIC and the EV denominators vanish at the true frequencies
      pseudo_nonneg, pseudo_positive  denominators are >= 0 (EV: when the noise singular values are > 0); they are 0 exactly when every
                                    noise vector is orthogonal to e(f); elsewhere the pseudo-spectrum is > 0
@@ -28,11 +31,12 @@
                                    the bin frequencies() reports for j (centred / two-sided / one-sided), lengths NFFT / NFFT / NFFT/2+1
    REFUTED on a corner (Example ev_zero_singular_value_not_positive, reproduced on the implementation by the check):
      with an exactly rank-deficient data matrix the EV weights 1/S_I are 1/0: the EV "pseudo-spectrum is positive" clause fails.
-   NOT PROVED: that the binary64 values at the true bins dominate ("K largest local maxima within one bin"), that exactly K
-     singular values are numerically non-negligible (rank FB <= K is the factorisation above), anything about numpy's SVD itself,
+   NOT PROVED: that the binary64 values at the true bins dominate ("K largest local maxima within one bin"), that the first K
+     singular values are non-zero / that the trailing ones are numerically negligible (in exact arithmetic they are 0: proved),
+     anything about numpy's SVD itself,
      the AIC/MDL values (logarithms; only NSIG = argmin + 1 is modelled). *)
 Require Import Spectrum.Theory.Ops Spectrum.Theory.Sum Spectrum.Theory.Vec Spectrum.Theory.Order Spectrum.Theory.Dft
-               Spectrum.Model.Eigen Spectrum.Proofs.EigenFB Spectrum.Proofs.EigenAxis Spectrum.Proofs.EigenTheory
+               Spectrum.Model.Eigen Spectrum.Proofs.EigenFB Spectrum.Proofs.EigenAxis Spectrum.Proofs.EigenTheory Spectrum.Proofs.EigenRank
                Spectrum.Instances.QcC Spectrum.Instances.QcCOrd Spectrum.Instances.QcCTw.
 From Coq Require Import QArith Qcanon.
 
@@ -85,17 +89,30 @@ Theorem singular_vector_null (FB : list (list F)) (rows P : nat) (S : list F) (V
   gram_eq FB rows P S Vh I -> nthF S I = 0 -> forall r, (r < rows)%nat -> mv FB P (rsv Vh I) r = 0.
 Proof. exact (zero_sv_null FB rows P S Vh I). Qed.
 
+Theorem rank_bounds_singular_values (FB : list (list F)) (rows P K : nat) (S : list F) (Vh : list (list F)) (Lf B : nat -> nat -> F) :
+  svd_spec FB rows P S Vh -> (K < P)%nat ->
+  (forall r k, (r < rows)%nat -> (k < P)%nat -> mat FB r k = sumf K (fun i => Lf r i * B i k)) ->
+  nthF S K = 0.
+Proof. exact (factor_singular_value_zero FB rows P K S Vh Lf B). Qed.
+
+Theorem singular_values_rank (x : list F) (P K : nat) (A z : nat -> F) (S : list F) (Vh : list (list F)) :
+  (forall n, (n < length x)%nat -> nthF x n = expsig K A z n) ->
+  (forall i, (i < K)%nat -> z i * conj (z i) = 1) ->
+  svd_spec (fb_matrix x P) (2 * np_of (length x) P) P S Vh ->
+  forall I, (K <= I)%nat -> (I < P)%nat -> nthF S I = 0.
+Proof. exact (noiseless_rank_thm x P K A z S Vh). Qed.
+
 Theorem eigen_resolves (tw : Z -> F) (NFFT : nat) (T : Twiddle NFFT tw) (Hpos : (0 < NFFT)%nat)
         meth crit amin (x : list F) (P K : nat) (A z : nat -> F) (bin : nat -> Z) (S : list F) (Vh : list (list F)) psd ev :
   (forall n, (n < length x)%nat -> nthF x n = expsig K A z n) ->
   (forall i, (i < K)%nat -> z i = tw (- bin i)%Z) ->
   (K <= np_of (length x) P)%nat -> distinct K z -> (forall i, (i < K)%nat -> A i <> 0) ->
-  svd_spec (fb_matrix x P) (2 * np_of (length x) P) P S Vh -> nthF S K = 0 ->
+  svd_spec (fb_matrix x P) (2 * np_of (length x) P) P S Vh ->
   eigen meth (Some (NInt (Z.of_nat K))) None crit amin tw NFFT x P S Vh = inr (psd, ev) ->
-  ev = S /\ length psd = NFFT /\ (K < P)%nat /\
+  ev = S /\ length psd = NFFT /\ (K < P)%nat /\ (forall I, (K <= I)%nat -> (I < P)%nat -> nthF S I = 0) /\
   forall i j (c : Z), (i < K)%nat -> (j < NFFT)%nat -> centerdc_bin NFFT j = (bin i + c * Z.of_nat NFFT)%Z ->
     nthF psd j = 1 / dform meth tw P S Vh K (centerdc_bin NFFT j) /\ dform meth tw P S Vh K (centerdc_bin NFFT j) = 0.
-Proof. exact (eigen_resolves_thm tw NFFT Hpos meth crit amin x P K A z bin S Vh psd ev). Qed.
+Proof. exact (eigen_resolves_rank_thm tw NFFT Hpos meth crit amin x P K A z bin S Vh psd ev). Qed.
 
 Theorem pseudo_nonneg (tw : Z -> F) meth (P : nat) (S : list F) (Vh : list (list F)) (ns : nat) (b : Z) :
   (meth = MEv -> forall I, (ns <= I)%nat -> (I < P)%nat -> pos (nthF S I)) ->
@@ -217,7 +234,7 @@ Proof.
   intros He.
   assert (Hpos : (0 < 4)%nat) by lia.
   destruct (@eigen_resolves _ qcc_ops qcc_laws qcc_ord tw4 4 tw4_twiddle Hpos MMusic CAic 0%nat ex_x 2%nat 1%nat
-              (fun _ => cz (1,0) (1,0)) (fun _ => cz (1,0) (0,0)) (fun _ => 0) ex_S ex_Vh psd ev) as (_ & _ & _ & H).
+              (fun _ => cz (1,0) (1,0)) (fun _ => cz (1,0) (0,0)) (fun _ => 0) ex_S ex_Vh psd ev) as (_ & _ & _ & _ & H).
   - intros n Hn. cbn [length ex_x] in Hn.
     destruct n as [|[|[|[|n]]]]; [qcc_eq|qcc_eq|qcc_eq|qcc_eq|lia].
   - intros i Hi. qcc_eq.
@@ -225,7 +242,6 @@ Proof.
   - intros i j Hi Hj Hij. lia.
   - intros i Hi E. inversion E.
   - exact svd_spec_example.
-  - qcc_eq.
   - exact He.
   - apply (H 0%nat 2%nat 0 ltac:(lia) ltac:(lia)). reflexivity.
 Qed.
@@ -254,6 +270,8 @@ Print Assumptions noise_polynomial_vanishes.
 Print Assumptions noise_polynomial_vanishes_backward.
 Print Assumptions noise_polynomial_converse.
 Print Assumptions singular_vector_null.
+Print Assumptions rank_bounds_singular_values.
+Print Assumptions singular_values_rank.
 Print Assumptions eigen_resolves.
 Print Assumptions pseudo_nonneg.
 Print Assumptions pseudo_positive.
